@@ -643,133 +643,4 @@ theorem ser_uenum_some (tag : LenTy) (ht : tag.Law) (ht1 : tag.align = 1) (vs : 
         simp only [Res.bind_ok, List.length_append, encLenTy_length, hclen]
         congr 1; omega
 
-/-! ### assembled -/
-theorem align1LL_getD : ∀ (vs : List (List Ty)) (idx : Nat), align1LL vs = true → align1L (vs.getD idx []) = true := by
-  intro vs
-  induction vs with
-  | nil => intro idx _; simp [align1L]
-  | cons v vs ih =>
-    intro idx h
-    simp only [align1LL, Bool.and_eq_true] at h
-    cases idx with
-    | zero => simpa using h.1
-    | succ k => simpa using ih k h.2
-
-theorem align1L_concat : ∀ (pre : List Ty) (lt : Ty), align1L (pre ++ [lt]) = true → align1L pre = true ∧ lt.align1 = true := by
-  intro pre
-  induction pre with
-  | nil => intro lt h; simp only [List.nil_append, align1L, Bool.and_eq_true] at h; exact ⟨rfl, h.1⟩
-  | cons t ts ih =>
-    intro lt h
-    simp only [List.cons_append, align1L, Bool.and_eq_true] at h
-    have := ih lt h.2
-    exact ⟨by simp only [align1L, Bool.and_eq_true]; exact ⟨h.1, this.1⟩, this.2⟩
-
-mutual
-/-- the initialiser carries exactly one image per sized field (as every generated `…Init` does), and contains no
-`flex::FromIterator` (the FlexVec case of the serialisation theorem is not proved) -/
-def InitTight : Ty → Init → Prop
-  | _, .raw _ => True
-  | .vec _ _, .vecEmpty => True
-  | .vec _ _, .vecArr _ => True
-  | .vec _ _, .vecIter _ => True
-  | .str _, .strEmpty => True
-  | .str _, .strFrom _ => True
-  | .flex _ _, .flexEmpty => True
-  | .ustruct fs last, .ustruct vals li => vals.length = fs.length ∧ InitTight last li
-  | .uenum _ vs, .uenum idx vals none => vals.length = (vs.getD idx []).length
-  | .uenum _ vs, .uenum idx vals (some li) => ∃ pre lt, vs.getD idx [] = pre ++ [lt] ∧ vals.length = pre.length ∧ InitTight lt li
-  | _, _ => False
-end
-
-/-- **Emplace = serialise (portable types).** For every well-formed alignment-1 type and every well-typed initialiser without
-`flex::FromIterator`: whenever the emplacer reports `Ok`, the image starts with the reference serialisation of what was specified
-(tag, fields, length, elements concatenated in declaration order, no padding), and `size()` is the length of that serialisation. -/
-theorem emplaceU_ser : ∀ (i : Init) (t : Ty), t.WF → t.align1 = true → InitWT t i → InitTight t i → EmpSpecS t i
-  | .raw v, t, h, _, hw, _ => by
-      simp only [InitWT] at hw
-      intro s _ _ o ho
-      exact ser_raw t h v hw s o ho
-  | .vecEmpty, t, h, ha, hw, _ht => by
-      cases t <;> simp only [InitWT] at hw
-      rename_i et l
-      simp only [Ty.WF] at h
-      simp only [Ty.align1, Bool.and_eq_true, beq_iff_eq] at ha
-      intro s _ hlen o ho
-      exact ser_vecEmpty et (Ty.law et h.1) ha.1 l h.2.2 ha.2 s hlen o ho
-  | .vecArr xs, t, h, ha, hw, _ht => by
-      cases t <;> simp only [InitWT] at hw
-      rename_i et l
-      simp only [Ty.WF] at h
-      simp only [Ty.align1, Bool.and_eq_true, beq_iff_eq] at ha
-      obtain ⟨sz, hsz⟩ := sized_some et h.2.1
-      intro s _ hlen o ho
-      exact ser_vecArr et h.1 ha.1 sz hsz l h.2.2 ha.2 xs hw s hlen o ho
-  | .vecIter xs, t, h, ha, hw, _ht => by
-      cases t <;> simp only [InitWT] at hw
-      rename_i et l
-      simp only [Ty.WF] at h
-      simp only [Ty.align1, Bool.and_eq_true, beq_iff_eq] at ha
-      obtain ⟨sz, hsz⟩ := sized_some et h.2.1
-      intro s _ hlen o ho
-      exact ser_vecIter et h.1 ha.1 sz hsz l h.2.2 ha.2 xs hw s hlen o ho
-  | .strEmpty, t, h, ha, hw, _ht => by
-      cases t <;> simp only [InitWT] at hw
-      rename_i l
-      simp only [Ty.WF] at h
-      simp only [Ty.align1, beq_iff_eq] at ha
-      intro s _ hlen o ho
-      exact ser_strEmpty l h ha s hlen o ho
-  | .strFrom v, t, h, ha, hw, _ht => by
-      cases t <;> simp only [InitWT] at hw
-      rename_i l
-      simp only [Ty.WF] at h
-      simp only [Ty.align1, beq_iff_eq] at ha
-      intro s _ hlen o ho
-      exact ser_strFrom l h ha v s hlen o ho
-  | .flexEmpty, t, h, ha, hw, _ht => by
-      cases t <;> simp only [InitWT] at hw
-      rename_i it l
-      simp only [Ty.WF] at h
-      simp only [Ty.align1, Bool.and_eq_true, beq_iff_eq] at ha
-      intro s _ hlen o ho
-      exact ser_flexEmpty it (Ty.law it h.1) ha.1 l h.2 ha.2 s hlen o ho
-  | .flexIter items, t, _, _, _, ht => by
-      cases t <;> simp only [InitTight] at ht
-  | .ustruct vals li, t, h, ha, hw, ht => by
-      cases t <;> simp only [InitWT] at hw
-      rename_i fs last
-      simp only [Ty.WF] at h
-      simp only [InitTight] at ht
-      simp only [Ty.align1, Bool.and_eq_true] at ha
-      exact ser_ustruct fs last h.1 h.2.1 h.2.2.1 ha.1 ha.2 vals li hw.1 ht.1 (emplaceU_ok li last h.2.2.1 hw.2)
-        (emplaceU_ser li last h.2.2.1 ha.2 hw.2 ht.2)
-  | .uenum idx vals none, t, h, ha, hw, ht => by
-      cases t <;> simp only [InitWT] at hw
-      rename_i tag vs
-      simp only [Ty.WF] at h
-      simp only [InitTight] at ht
-      simp only [Ty.align1, Bool.and_eq_true, beq_iff_eq] at ha
-      exact ser_uenum_none tag h.1 ha.1 vs h.2.1 ha.2 idx hw.1 hw.2.1 vals hw.2.2.1 hw.2.2.2 ht
-  | .uenum idx vals (some li), t, h, ha, hw, ht => by
-      cases t <;> simp only [InitWT] at hw
-      rename_i tag vs
-      simp only [Ty.WF] at h
-      simp only [InitTight] at ht
-      simp only [Ty.align1, Bool.and_eq_true, beq_iff_eq] at ha
-      obtain ⟨hidx, hrep, pre, lt, hvar, hv, hwl⟩ := hw
-      obtain ⟨pre', lt', hvar', hlen', htl⟩ := ht
-      have heq : pre' ++ [lt'] = pre ++ [lt] := by rw [← hvar, ← hvar']
-      have hp : pre' = pre := List.append_inj_left' heq rfl
-      have hlt : lt' = lt := by
-        have := List.append_inj_right' heq rfl
-        simpa using this
-      subst hp hlt
-      have hwf := wfLL_getD vs idx h.2.1
-      rw [hvar] at hwf
-      have hav := align1LL_getD vs idx ha.2
-      rw [hvar] at hav
-      have hlta := (align1L_concat pre' lt' hav).2
-      exact ser_uenum_some tag h.1 ha.1 vs h.2.1 h.2.2 ha.2 idx hidx hrep vals pre' lt' hvar hv hlen' li
-        (emplaceU_ok li lt' (wfL_concat pre' lt' hwf).2 hwl) (emplaceU_ser li lt' (wfL_concat pre' lt' hwf).2 hlta hwl htl)
 end FV
